@@ -546,7 +546,7 @@ def family_run(pid, tier, seed, replay):
             v.cov["vacuity_witnesses_reached"] = nw
         phase("witness")
         # 2. scenarios generated by TLC from the model
-        limit = 80 if tier == "quick" else 4000
+        limit = 60 if tier == "quick" else 4000
         for i, (cfg, store, js, stateless, prime) in enumerate(fam["cover"][tier]):
             rows += cover_scenarios(v, cfg, store, js, stateless, prime, seed, rnd, limit, "cov%d." % i)
         n_cover = len(rows)
@@ -567,7 +567,7 @@ def family_run(pid, tier, seed, replay):
     coverage(v, traces)
     phase("monitor")
     if not replay:
-        strict(v, orows, bad, limit=(250 if tier == "quick" else 3000), rnd=rnd)
+        strict(v, orows, bad, limit=(180 if tier == "quick" else 3000), rnd=rnd)
     phase("strict")
     for tid, start, trows in traces[:3]:
         v.sample({"trace": tid, "mode": mode_of(trows[0]), "steps": steps_of_trace(trows)[:14]})
